@@ -93,6 +93,47 @@ def no_absolute_thresholds(F, R, names, rule='G0'):
              'absolute threshold: %s: %s' % bad[0], v.file)
 
 
+def offset_invariance(F, R, tier='quick'):
+    """x -> x + b leaves HLNormalizer, Vsct, NoiseEliminationTechnology and EhlersFisherTransform unchanged: abstract execution
+    from the initial state with one symbol per input, every value carrying its *shift coefficient* k (value(x + b) = value(x) + k·b
+    for linear forms; a non-linear operation or a comparison is admitted only on operands whose shifts cancel, and then has
+    k = 0; anything else is 'unknown'). Every reported value must have k = 0 and no comparison may move with b."""
+    from .lti import transient
+    views = view_by_name(F)
+    Ns = range(1, 9) if tier == 'quick' else range(1, 25)
+    for n in ('HLNormalizer', 'Vsct', 'NoiseEliminationTechnology', 'EhlersFisherTransform'):
+        v = views.get(n)
+        if v is None:
+            R.violation('D-shift', n, 'not found')
+            continue
+        m = model(F, v)
+        bad = []
+        cnt = 0
+        for N in Ns:
+            mm = [x for x in m.ctor_models if x['fn'].name == 'new' and x['init'] is not None]
+            if not mm:
+                continue
+            ints = [nm for (pid, nm, ty) in mm[0]['fn'].param_ids() if ty == 'usize']
+            reg = {'n': 0, 'shift': {}, 'problems': []}
+            outs, probs = transient(m, 'new', {ints[0]: N}, 3 * N + 6, reg)
+            if outs is None:
+                continue
+            for k, o in enumerate(outs):
+                if o is None:
+                    continue
+                cnt += 1
+                if o == 'nl' or not (isinstance(o, tuple) and o[0] == 'shift'):
+                    bad.append('N=%d: output %d could not be evaluated' % (N, k))
+                    break
+                if o[1] is None or abs(o[1]) > 1e-9:
+                    bad.append('N=%d: output %d %s when every input is shifted by b' % (N, k, 'is not shown to stay put' if o[1] is None else 'moves by %.4g·b' % o[1]))
+                    break
+            if reg['problems'] and not bad:
+                bad.append('N=%d: %s' % (N, reg['problems'][0]))
+        R.ob('D-shift', n, not bad and cnt > 0, 'adding a constant to every input changes no reported value and no branch (%d outputs from the initial state, N = %d..%d)' % (cnt, Ns[0], Ns[-1])
+             if not bad and cnt > 0 else (bad[0] if bad else 'nothing analysed'), v.file)
+
+
 def vst_degenerate_select(t):
     """phi(x == 0 ? .. : ..) (possibly under Some / nested under the readiness phi): the statement's own flat-window case."""
     from .terms import relation
@@ -105,7 +146,7 @@ def vst_degenerate_select(t):
     return False
 
 
-def run_c12(F, R):
+def run_c12(F, R, tier='quick'):
     R.trust('rustc front end; sfa/vg.py; degree typing rules in sfa/e_typing.py; degree table in sfa/spec.py (from the property)')
     R.assume('real arithmetic for general a > 0; bit-exact for a a power of two; moving averages supplied to EFT/PFE are degree-1 views')
     views = view_by_name(F)
@@ -130,7 +171,9 @@ def run_c12(F, R):
              'output degree is %s, the property needs %s' % (out, want), v.file)
     no_raw_in_state(F, R, [n for n, _ in table], 'R2s')
     R.floor('D-out', 28)
-    R.decline('offset invariance (x -> x + b) is not decided: it needs the algebra of sums')
+    offset_invariance(F, R, tier)
+    R.floor('D-shift', 4)
+    R.decline('offset invariance of CorrelationTrendIndicator is not decided: n·Σx² − (Σx)² is invariant only through an algebraic cancellation of two moving terms')
     R.decline('negation symmetry (Min <-> -Max, Rsi -> 100 - Rsi, ...) is not decided: it needs pairing of mirrored branches')
 
 
